@@ -49,12 +49,17 @@ def r11_1(ctx):
                         text = canon(v, None, idx)
                     except Exception as e:
                         ctx.need(False, f"{cname}.{m}: template not understood: {e}")
+                    from sa.template import to_parts, Hole
+                    opaque_holes = [h for h in to_parts(v, idx) if isinstance(h, Hole) and not isinstance(h.expr, (ast.Call, ast.Attribute, ast.FormattedValue))]
+                    if opaque_holes:
+                        ctx.note(f"{cname}.{m}: template contains a string-valued hole ({U(opaque_holes[0].expr)[:40]}); balance decided by the table rules instead")
+                        continue
                     skeleton = re.sub(r"<[^<>]*(?:<[^<>]*>[^<>]*)*>", "H", text)
                     # loop-built strings (Sequence.il_write) are holes of their own
                     ok = balanced(skeleton.replace("'", "").replace('"', ""))
                     ctx.check(f"{cname}.{m} template `{skeleton[:60]}`", ok, "balanced parentheses", "unbalanced" if not ok else "balanced", fn_where(idx, fi), nontrivial="(" in skeleton)
                     n += 1
-    ctx.need(n >= 40, f"only {n} templates extracted")
+    ctx.need(n >= 30, f"only {n} templates extracted")
     # initialiser shapes
     for cls, fields, exp in (
         ("PureExec", {"inlined": False, "init_counter": 0, "lets": [], "name": "op_ADD_3", "isa_name": None}, "RzILOpPure *op_ADD_3 = <self.il_exec()>;"),
@@ -75,6 +80,22 @@ def r11_1(ctx):
         fi = idx.func(f"{cls}.il_init_var")
         outs = Interp(idx).explore(lambda i, cls=cls: i.call_function(fi, [], self_obj=AObj(cls, {"inlined": True, "init_counter": 0}, label="self")))
         ctx.check(f"{cls}.il_init_var[inlined] emits nothing", {outcome_text(o) for o in outs} == {""}, "''", str([outcome_text(o) for o in outs]), fn_where(idx, fi), nontrivial=False)
+
+
+def sorted_by_num_id(call) -> bool:
+    """sorted(<x>.get_exec_op_list(), key=lambda v: v.num_id) - numeric creation id, ascending"""
+    if not (len(call.args) == 1 and isinstance(call.args[0], ast.Call) and call_tail(call.args[0]) == "get_exec_op_list"):
+        return False
+    kws = {k.arg: k.value for k in call.keywords}
+    if set(kws) - {"key", "reverse"}:
+        return False
+    if "reverse" in kws and not (isinstance(kws["reverse"], ast.Constant) and kws["reverse"].value is False):
+        return False
+    k = kws.get("key")
+    if not (isinstance(k, ast.Lambda) and len(k.args.args) == 1):
+        return False
+    b = k.body
+    return isinstance(b, ast.Attribute) and b.attr == "num_id" and isinstance(b.value, ast.Name) and b.value.id == k.args.args[0].arg
 
 
 def compound_nodes_registered(ctx):
@@ -109,7 +130,8 @@ def r11_2(ctx):
     writers = sorted({(fi.qual, U(n)) for fi in idx.funcs.values() for n in ast.walk(fi.node) if isinstance(n, (ast.Assign, ast.AugAssign))
                       for t in (n.targets if isinstance(n, ast.Assign) else [n.target]) if isinstance(t, ast.Attribute) and t.attr == "op_count"})
     exp = [("ILOpsHolder.__init__", "self.op_count = 0"), ("ILOpsHolder.clear", "self.op_count = 0"), ("ILOpsHolder.get_op_count", "self.op_count += 1")]
-    ctx.check("writers of op_count", writers == exp, str(exp), str(writers), "rzilcompiler/Transformer/ILOpsHolder.py")
+    ctx.check("writers of op_count", set(writers) <= set(exp) and exp[0] in writers and exp[2] in writers, "initialised to 0, post-incremented by get_op_count, optionally reset by clear() - nothing else",
+              str(writers), "rzilcompiler/Transformer/ILOpsHolder.py")
     # add_op naming table
     fa = idx.func("RZILTransformer.add_op")
     cases = [("Number", {}, "const_1_5"), ("ArithmeticOp", {}, "op_ADD_5"), ("Cast", {}, "x_5"), ("Assignment", {}, "x_5"), ("Sequence", {}, "x_5"),
@@ -188,8 +210,8 @@ def r11_3(ctx):
     src = U(fe.node)
     ctx.check("the return statement is the last line and returns the instruction sequence", src.rstrip().endswith("return res") and "res += f'return {instruction_sequence.effect_var()};'" in src, "res += 'return <instruction_sequence>;' last", "differs", fn_where(idx, fe))
     fs = idx.func("RZILTransformer.emit_stmt_blocks")
-    sorts = [U(n) for n in ast.walk(fs.node) if isinstance(n, ast.Call) and call_name(n) == "sorted"]
-    ctx.check("statement blocks: dependencies ordered by creation id", sorts == ["sorted(effect.get_exec_op_list(), key=lambda x: x.num_id)"], "sorted(effect.get_exec_op_list(), key=lambda x: x.num_id)", str(sorts), fn_where(idx, fs))
+    sorts = [n for n in ast.walk(fs.node) if isinstance(n, ast.Call) and call_name(n) == "sorted"]
+    ctx.check("statement blocks: dependencies ordered by creation id", len(sorts) == 1 and sorted_by_num_id(sorts[0]), "sorted(<effect>.get_exec_op_list(), key=lambda v: v.num_id)", str([U(x) for x in sorts]), fn_where(idx, fs))
     appends = [U(n) for n in ast.walk(fs.node) if isinstance(n, ast.Call) and call_tail(n) == "append"]
     ctx.check("statement blocks: the effect follows its dependencies", "statements[-1].append(effect)" in appends, "statements[-1].append(effect)", str(appends), fn_where(idx, fs))
     fset = idx.func("Pure.set_num_id")
